@@ -38,6 +38,7 @@ import (
 	"github.com/cosmos/cosmos-sdk/crypto/keys/multisig"
 	cryptotypes "github.com/cosmos/cosmos-sdk/crypto/types"
 	sdk "github.com/cosmos/cosmos-sdk/types"
+	"github.com/cosmos/cosmos-sdk/types/bech32"
 	sdkerrors "github.com/cosmos/cosmos-sdk/types/errors"
 	txtypes "github.com/cosmos/cosmos-sdk/types/tx"
 	"github.com/cosmos/cosmos-sdk/types/tx/signing"
@@ -907,6 +908,37 @@ func (e *env) decoderSweep() {
 		e.out.Count("address-" + strings.SplitN(res, ":", 2)[0])
 		if isPanic(res) {
 			e.out.Violate("panic in address parser on input class [mutated address text]: " + res + " input=" + hex.EncodeToString([]byte(a)))
+		}
+		// correspondence with the Lean models of ValidateEthereumAddress / ParseAddress (Keccak checksum and bech32 are inputs)
+		if !isPanic(res) {
+			ck := boolB(common.HexToAddress(a).Hex() == a)
+			kind := "ok"
+			if err := contract.ValidateEthereumAddress(a); err != nil {
+				switch {
+				case err.Error() == "empty":
+					kind = "empty"
+				case err.Error() == "wrong length":
+					kind = "wrong-length"
+				case err.Error() == "invalid format":
+					kind = "invalid-format"
+				case strings.HasPrefix(err.Error(), "mismatch"):
+					kind = "checksum"
+				default:
+					kind = "other:" + err.Error()
+				}
+			}
+			e.out.Emit("ethaddr "+hx.HexS(a)+" "+ck, kind)
+			e.out.Nontrivial("ethaddr " + kind)
+			_, _, berr := bech32.DecodeAndConvert(a)
+			_, isEvm, perr := fxtypes.ParseAddress(a)
+			pk := "err"
+			if perr == nil && isEvm {
+				pk = "evm"
+			} else if perr == nil {
+				pk = "bech32"
+			}
+			e.out.Emit("paddr "+hx.HexS(a)+" "+boolB(berr == nil)+" "+ck, pk)
+			e.out.Nontrivial("paddr " + pk)
 		}
 		if contract.ValidateEthereumAddress(a) == nil {
 			okFmt := len(a) == 42 && strings.HasPrefix(a, "0x")
